@@ -198,7 +198,7 @@ func main() {
 	depth := ev.Pick(r, 10, 12)
 	scenarios := map[string][]def{}
 	var names []string
-	for _, g := range []int{1, 5, 100} {
+	for _, g := range []int{100, 5, 1} {
 		var ds []def
 		for _, t := range []string{"total", "ema", "windowed"} {
 			for _, u := range []bool{true, false} {
@@ -238,6 +238,8 @@ func main() {
 			Enabled:  func(h []event) []event { return alphabet },
 			Exec:     func(h []event) (string, string, *seqx.Failure) { return exec(nmc, defs, h) },
 			MaxDepth: depth, Workers: 4,
+			// the real state space has 768 states per scenario; the cap only stops a run whose bookkeeping leaks (then exhaustive:false)
+			MaxStates: 6000,
 		})
 	}
 	r.Set("traces_validated_against_impl", r.Count("transitions"))
